@@ -145,3 +145,53 @@ Proof.
       lor_arith. finish_encode.
   - destruct ph; contradiction.
 Qed.
+
+(* ---------------------------------------------------------------- _tcall._convert_from_encoding *)
+Lemma py_unsigned w : 0 <= w < 2 ^ 32 ->
+  (if to_signed32 w >=? 0 then ret (to_signed32 w) else Some (to_signed32 w + 2 ^ 32)) = Some w.
+Proof.
+  intros H. unfold to_signed32, ret. consts. destruct (w <? 2147483648) eqn:E.
+  - replace (w >=? 0) with true by lia. reflexivity.
+  - replace (w - 4294967296 >=? 0) with false by lia. f_equal. lia.
+Qed.
+
+Lemma word_fields ph pl ar : 0 <= pl <= 3 ->
+  Z.land (word ph pl ar / 2 ^ 1) 3 = pl /\ (Z.land (word ph pl ar) 1 =? 1) = ph /\ word ph pl ar / 2 ^ 3 = ar.
+Proof.
+  intros H. rewrite land_3, land_1. unfold word, b2i. consts. destruct ph; (split; [lia | split; [|lia]]).
+  - replace ((1 + 2 * pl + 8 * ar) mod 2) with 1 by lia. reflexivity.
+  - replace ((0 + 2 * pl + 8 * ar) mod 2) with 0 by lia. reflexivity.
+Qed.
+
+Lemma ap_enc_fields j k : 0 <= j <= 65535 -> 0 <= k <= 65535 ->
+  Z.land (ap_enc j k) 65535 = j /\ Z.land (ap_enc j k / 2 ^ 16) 65535 = k.
+Proof. intros Hj Hk. rewrite !land_ffff. unfold ap_enc. consts. lia. Qed.
+
+Lemma p_decode c : valid_call c -> Py.convert_from_encoding (spec_pack c) = Some c.
+Proof.
+  intros Hv. pose proof (valid_repr c Hv) as [Hr Hp].
+  pose proof (p_Call_init_valid c Hv) as Hinit.
+  unfold Py.convert_from_encoding. cbv zeta. pnorm.
+  unfold spec_pack. rewrite py_unsigned by (apply word_range; lia). pnorm.
+  destruct (word_fields (snd c) (py_len (fst c)) (repr_of c) ltac:(lia)) as [F1 [F2 F3]].
+  unfold spec_word. rewrite F1, F2, F3.
+  destruct c as [[|a0 [|a1 [|a2 l]]] ph]; cbn [valid_call] in Hv; unfold max_repr in Hv; cbn [repr_of fst snd py_len length Z.of_nat Pos.of_succ_nat Pos.succ] in *.
+  - exact Hinit.
+  - bsolve. pnorm. exact Hinit.
+  - bsolve. pnorm. destruct ph; cbv iota.
+    + destruct Hv as [H0 [H1 Hlt]]. pose proof (row_bound a0 (a0 + a1) ltac:(lia) Hlt) as Hk.
+      rewrite p_gt_allele_pair by exact Hr. rewrite pair_of_gt_index by lia. pnorm.
+      destruct (ap_enc_fields a0 (a0 + a1) ltac:(lia) ltac:(lia)) as [Ej Ek]. rewrite Ej, Ek.
+      replace (a0 + a1 - a0) with a1 by lia. rewrite p_allele_pair by lia. pnorm.
+      destruct (ap_enc_fields a0 a1 ltac:(lia) ltac:(lia)) as [Ej' Ek']. rewrite Ej', Ek'. exact Hinit.
+    + destruct Hv as [H0 Hlt]. pose proof (row_bound a0 a1 H0 Hlt) as Hk.
+      rewrite p_gt_allele_pair by exact Hr. rewrite pair_of_gt_index by lia. pnorm.
+      destruct (ap_enc_fields a0 a1 ltac:(lia) ltac:(lia)) as [Ej Ek]. rewrite Ej, Ek. exact Hinit.
+  - destruct ph; contradiction.
+Qed.
+
+(** Beyond the engine's bound the Python encoder does not fail: it silently produces the encoding of ANOTHER call
+    (replayable on the real code; outside the quantifier of the property, reported as an observation). *)
+Example py_silent_wrap_outside_bound :
+  Py.convert_to_encoding ([2 ^ 29], false) = Py.convert_to_encoding ([0], false).
+Proof. vm_compute. reflexivity. Qed.
